@@ -473,6 +473,49 @@ def run_explicit_range(ctx):
             ctx.violation('ResizingOperator', cfg, 'raises:' + type(e).__name__, message=str(e)[:200])
 
 
+def run_foreign_range(ctx):
+    """"...with unchanged cell sizes": a range handed in explicitly whose cells differ from the domain's in *any* axis -
+    resized or not - is no resizing of the domain.  It must be refused (ValueError), never silently accepted: the operator
+    would map between different cell volumes and its adjoint identity would be off by their ratio."""
+    idx = 30000
+    doms = [('2d', [0.0, -1.0], [1.0, 3.0], (4, 3)), ('3d', [0.0, 0.0, 0.0], [1.0, 2.0, 3.0], (3, 2, 4)), ('1d', [0.5], [2.0], (5,))]
+    for (tag, lo, hi, shape), factor, which in itertools.product(doms, (2.0, 1.01, 0.5), ('non-resized-axis', 'resized-axis', 'shifted-by-fraction-of-a-cell')):
+        idx += 1
+        if not ctx.mine(idx):
+            continue
+        nd = len(shape)
+        if nd == 1 and which == 'non-resized-axis':
+            continue
+        sp = odl.uniform_discr(lo, hi, shape)
+        h = sp.cell_sides
+        # axis 0 is resized by 2 cells on each side; the last axis keeps its shape
+        rshape = (shape[0] + 4,) + tuple(shape[1:])
+        rlo = np.array(lo, dtype=float)
+        rhi = np.array(hi, dtype=float)
+        rlo[0] -= 2 * h[0]
+        rhi[0] += 2 * h[0]
+        if which == 'non-resized-axis':
+            rhi[-1] = rlo[-1] + factor * (rhi[-1] - rlo[-1])
+        elif which == 'resized-axis':
+            rhi[0] = rlo[0] + factor * (rhi[0] - rlo[0])
+        else:
+            rlo[0] -= 0.37 * h[0] * factor
+            rhi[0] -= 0.37 * h[0] * factor
+        cfg = '%s;%s' % (tag, which)
+        ctx.case('foreign-range;' + cfg, factor)
+        ctx.ev('resizing-operator')
+        try:
+            ran = odl.uniform_discr(rlo, rhi, rshape)
+            op = odl.ResizingOperator(sp, ran)
+        except ValueError:
+            continue
+        except Exception as e:
+            ctx.violation('ResizingOperator', 'explicit-range;' + cfg, 'raises:' + type(e).__name__, message=str(e)[:200])
+            continue
+        ctx.violation('ResizingOperator', 'explicit-range;' + cfg, 'bad-input-accepted', factor=factor,
+                      domain_cells=[float(v) for v in sp.cell_sides], range_cells=[float(v) for v in op.range.cell_sides])
+
+
 def run(ctx):
     ctx.note('rule', 'one case = (old shape, new shape, offsets, pad mode, dtype/layout); the lattice per-axis '
                      '{grow, shrink, same} x offsets {0, max, interior} x 5 modes x ndim 1..3 is enumerated, plus seeded '
@@ -487,6 +530,7 @@ def run(ctx):
     run_operator(ctx)
     run_range_geometry(ctx)
     run_explicit_range(ctx)
+    run_foreign_range(ctx)
     cov.disarm()
     n_exec, n_hit, unreached = cov.report()
     ctx.note('line_coverage', {'executable': n_exec, 'hit': n_hit})
